@@ -248,7 +248,7 @@ pub fn exec_item(prop: Prop, item: &Item) -> Result<ItemResult, (Case, String)> 
 }
 
 /// Replays one saved case under the property's oracles (bypasses all generators).
-pub fn exec_replay(prop: Prop, case: &Case) -> Result<u64, String> {
+pub fn exec_replay(prop: Prop, case: &Case) -> Result<(u64, u64), String> {
     let opts = prop.opts();
     match prop {
         Prop::C04 => {
@@ -263,8 +263,8 @@ pub fn exec_replay(prop: Prop, case: &Case) -> Result<u64, String> {
                     case.fill, case.route
                 ));
             }
-            Ok(o.flags)
+            Ok((o.flags, o.digest))
         }
-        _ => run_case(case, opts).map(|o| o.flags).map_err(|f| f.msg),
+        _ => run_case(case, opts).map(|o| (o.flags, o.digest)).map_err(|f| f.msg),
     }
 }
